@@ -114,7 +114,9 @@ def rule_iteration_state(ctx):
                     ctx.instance(key, sample={"fn": f"{rel}::{fn.qual}", "loop": desc, "assign": f"{lhs} = {rhs[:80]}", "class": "constant flag" if const else "unconditional per-element slot" if uncond else "CONDITIONAL"})
                     # an unconditional per-element store is fresh only if the new value does not read the slot it replaces
                     selfread = re.search(r"(?<![\w.])" + re.escape(lhs) + r"(?![\w(])", rhs) is not None
-                    if uncond and selfread and not const:
+                    # (a plain local that the loop folds into - `acc = Some(match acc.take() {..})` - is an accumulator by
+                    # design; the slot of a structure handed to each element's expansion is not)
+                    if uncond and selfread and not const and "." in lhs:
                         ctx.report(
                             key + ":self-read",
                             ctx.where(f, asg["left"]),
@@ -193,6 +195,16 @@ def rule_accumulators(ctx):
     ctx.floor("accumulated places", n, 40)
 
 
+# functions whose accumulating `for` loops were read on the audited tree: each processes every element it iterates over
+AUDITED_FOR_LOOPS = {
+    ("impl/src/add_helpers.rs", "tuple_exprs"), ("impl/src/add_helpers.rs", "struct_exprs"), ("impl/src/add_like.rs", "enum_content"),
+    ("impl/src/error.rs", "render_enum"), ("impl/src/from.rs", "Expansion::expand"), ("impl/src/from_str.rs", "enum_from"),
+    ("impl/src/into.rs", "check_legacy_syntax"), ("impl/src/is_variant.rs", "expand"), ("impl/src/not_like.rs", "tuple_content"),
+    ("impl/src/not_like.rs", "struct_content"), ("impl/src/not_like.rs", "enum_output_type_and_content"), ("impl/src/try_into.rs", "expand"),
+    ("impl/src/try_unwrap.rs", "expand"), ("impl/src/unwrap.rs", "expand"), ("impl/src/utils.rs", "parse_punctuated_nested_meta"),
+}
+
+
 def rule_loop_exit(ctx):
     """LOOP-EXIT: a `for` / `while` loop that accumulates into state outside its body (assignment, `push`, `insert`, ..) is left early only through a failure value (`return Err(..)`, `return None`, `?`): `return <anything else>` - e.g. turning a recursive call followed by more iterations into a tail call - silently ignores the remaining elements (attribute parameters written after a `not(..)` group)."""
     n = 0
@@ -235,7 +247,10 @@ def rule_loop_exit(ctx):
                         {},
                     )
                 # `continue` / `break`: the element (or the rest) is dropped without a diagnostic - closed set, expected empty
-                for c_, ps in A.find(body, ("Expr::Continue", "Expr::Break")):
+                # (`for` loops over the input's items only: a `while` loop of a hand-written scanner ends by `break`)
+                # and only the loops of the audited tree, where every element reaches the accumulation: a loop that a
+                # refactoring creates out of `.filter(..).try_fold(..)` spells its filter as `continue` legitimately
+                for c_, ps in (A.find(body, ("Expr::Continue", "Expr::Break")) if A.kind(loop) == "Expr::ForLoop" and (rel, fn.qual) in AUDITED_FOR_LOOPS else ()):
                     if any(A.kind(p) in ("Expr::Closure", "Expr::ForLoop", "Expr::While", "Expr::Loop") and p is not loop for p in ps):
                         continue
                     kw = "continue" if A.kind(c_) == "Expr::Continue" else "break"
